@@ -26,9 +26,25 @@ func checkMemDBResetTotal(c *core.Ctx, rule string) {
 		return
 	}
 	pos := c.P.Rel(fn.Pos())
+	// Reset and the same-receiver helpers it calls on itself (`p.resetHeadNode()`)
+	hosts := []*ssa.Function{fn}
+	for _, ci := range ir.Calls(fn, nil) {
+		h := ci.Common().StaticCallee()
+		if h != nil && h != fn && h.Pkg == fn.Pkg && h.Signature.Recv() != nil && len(h.Blocks) > 0 && len(ci.Common().Args) > 0 && ir.Strip(ci.Common().Args[0]) == ssa.Value(fn.Params[0]) {
+			hosts = append(hosts, h)
+			c.Attribute(h, fn)
+		}
+	}
+	storesOf := func(field string) []*ssa.Store {
+		var out []*ssa.Store
+		for _, h := range hosts {
+			out = append(out, allFieldStores(h, field)...)
+		}
+		return out
+	}
 	// L: p.nodeData = p.nodeData[:L]
 	var sliceLen int64 = -1
-	for _, st := range allFieldStores(fn, "nodeData") {
+	for _, st := range storesOf("nodeData") {
 		if sl, ok := st.Val.(*ssa.Slice); ok && sl.High != nil {
 			if k, isK := ir.ConstInt(sl.High); isK {
 				sliceLen = k
@@ -39,7 +55,7 @@ func checkMemDBResetTotal(c *core.Ctx, rule string) {
 	// scalar resets
 	for _, f := range []string{"n", "kvSize"} {
 		ok := false
-		for _, st := range allFieldStores(fn, f) {
+		for _, st := range storesOf(f) {
 			if k, isK := ir.ConstInt(st.Val); isK && k == 0 {
 				ok = true
 			}
@@ -47,7 +63,7 @@ func checkMemDBResetTotal(c *core.Ctx, rule string) {
 		c.Decide(ok, rule, fn, "field "+f+" is reset to 0", pos, "")
 	}
 	okKV := false
-	for _, st := range allFieldStores(fn, "kvData") {
+	for _, st := range storesOf("kvData") {
 		if sl, ok := st.Val.(*ssa.Slice); ok && sl.High != nil {
 			if k, isK := ir.ConstInt(sl.High); isK && k == 0 {
 				okKV = true
@@ -58,7 +74,11 @@ func checkMemDBResetTotal(c *core.Ctx, rule string) {
 	// the clearing loop
 	found, total := false, false
 	why := "no counted loop storing 0 into nodeData[base+n] found"
-	for _, b := range fn.Blocks {
+	var allBlocks []*ssa.BasicBlock
+	for _, h := range hosts {
+		allBlocks = append(allBlocks, h.Blocks...)
+	}
+	for _, b := range allBlocks {
 		for _, in := range b.Instrs {
 			st, ok := in.(*ssa.Store)
 			if !ok {
@@ -87,29 +107,48 @@ func checkMemDBResetTotal(c *core.Ctx, rule string) {
 			} else {
 				continue
 			}
-			phi, ok := ctr.(*ssa.Phi)
-			if !ok || len(phi.Edges) != 2 {
-				continue
-			}
-			// φ[0, φ+1] tested φ < B
-			zero, step := false, false
-			for _, e := range phi.Edges {
-				if k, isK := ir.ConstInt(e); isK && k == 0 {
-					zero = true
+			// the counter: φ[0, φ+1] tested φ < B, or — `for i := range array` — c = φ[−1, c]+1 tested c < B
+			var counter ssa.Value
+			if phi, isPhi := ctr.(*ssa.Phi); isPhi && len(phi.Edges) == 2 {
+				zero, step := false, false
+				for _, e := range phi.Edges {
+					if k, isK := ir.ConstInt(e); isK && k == 0 {
+						zero = true
+					}
+					if bo, isB := e.(*ssa.BinOp); isB && bo.Op == token.ADD && bo.X == ssa.Value(phi) {
+						if k, isK := ir.ConstInt(bo.Y); isK && k == 1 {
+							step = true
+						}
+					}
 				}
-				if bo, isB := e.(*ssa.BinOp); isB && bo.Op == token.ADD && bo.X == ssa.Value(phi) {
-					if k, isK := ir.ConstInt(bo.Y); isK && k == 1 {
-						step = true
+				if zero && step {
+					counter = phi
+				}
+			} else if inc, isInc := ctr.(*ssa.BinOp); isInc && inc.Op == token.ADD {
+				if phi, isPhi := inc.X.(*ssa.Phi); isPhi && len(phi.Edges) == 2 {
+					if k, isK := ir.ConstInt(inc.Y); isK && k == 1 {
+						minus1, back := false, false
+						for _, e := range phi.Edges {
+							if k2, isK2 := ir.ConstInt(e); isK2 && k2 == -1 {
+								minus1 = true
+							}
+							if e == ssa.Value(inc) {
+								back = true
+							}
+						}
+						if minus1 && back {
+							counter = inc
+						}
 					}
 				}
 			}
-			if !zero || !step {
+			if counter == nil || counter.Referrers() == nil {
 				continue
 			}
 			found = true
-			for _, r := range *phi.Referrers() {
+			for _, r := range *counter.Referrers() {
 				cmp, isC := r.(*ssa.BinOp)
-				if !isC || cmp.Op != token.LSS || cmp.X != ssa.Value(phi) {
+				if !isC || cmp.Op != token.LSS || cmp.X != counter {
 					continue
 				}
 				bound, isK := ir.ConstInt(cmp.Y)
